@@ -264,10 +264,10 @@ def run(tier, v):
     pool = ThreadPoolExecutor(max_workers=3)
     # 1. design (runs while the drivers run: they mostly sleep in the code's own timers)
     vlib._specdir()
-    fut_design = pool.submit(lambda: vlib.tlc("Filter", cfg, workers=8 if quick else 12, timeout=3000, heap="24g"))
+    fut_design = pool.submit(lambda: vlib.tlc("Filter", cfg, workers=8 if quick else 12, timeout=3000, heap="6g"))
     time.sleep(1.0)   # vlib numbers its TLC runs without a lock
     fut_gen = pool.submit(lambda: vlib.tlc("FilterGen", "FilterGen_quick.cfg" if quick else "FilterGen_thorough.cfg",
-                                           workers=4, timeout=1800, heap="8g"))
+                                           workers=4, timeout=1800, heap="3g"))
 
     h = vlib.build_harness(["c05"])
     bins = vlib.build_cmds(("trzsz",))
@@ -366,10 +366,17 @@ def run(tier, v):
         cov["selftest"] = "skipped: every trace file had a finding"
 
     # 3. spec -> impl (collect)
-    m = fut_mbt.result()
+    try:
+        m = fut_mbt.result()
+    except vlib.Infra as e:
+        if not v.violations:
+            raise
+        # the replay driver gave up on a filter that trace validation has already shown to be broken
+        cov["mbt_driver_gave_up"] = str(e)[-600:]
+        m = None
     mism = 0
     replayed = 0
-    for i in range(shards):
+    for i in range(shards if m is not None else 0):
         for rec in vlib.read_ndjson(os.path.join(mdir, "shard-%02d" % i, "results.ndjson")):
             ci = i + shards * rec["scenario"]
             case = picked[ci]
@@ -378,8 +385,12 @@ def run(tier, v):
                 if r["a"] not in ("out", "in"):
                     if r["a"] == "xfer" and not r.get("idle", True):
                         mism += 1
-                        v.violation("mbt:%s:still-transferring-after-%s" % (hist_sig(case), r.get("how")),
-                                    "filter still claims to be transferring after the transfer ended", {"case": case, "observed": rec["results"]})
+                        if r.get("note") == "trigger-not-taken":
+                            v.violation("mbt:%s:trigger-not-taken" % hist_sig(case),
+                                        "a genuine trigger fed while no session was active did not start a transfer", {"case": case, "observed": rec["results"]})
+                        else:
+                            v.violation("mbt:%s:still-transferring-after-%s" % (hist_sig(case), r.get("how")),
+                                        "filter still claims to be transferring after the transfer ended", {"case": case, "observed": rec["results"]})
                     continue
                 want = case["steps"][r["step"]]
                 if (r["pre"], r["body"], r["post"]) != (want["pre"], want["body"], want["post"]):
@@ -407,7 +418,7 @@ def run(tier, v):
     cov["model_constants"] = open(os.path.join(vlib.VERIF, "spec", cfg)).read()
     if not quick:
         # non-vacuity: every action of the model fires (safety part of the quick configuration)
-        c = vlib.tlc("Filter", "Filter_cov.cfg", timeout=1800, coverage=True, heap="16g")
+        c = vlib.tlc("Filter", "Filter_cov.cfg", timeout=1800, coverage=True, heap="6g")
         cov["action_counts"] = vlib.action_counts(c["out"])
         cov["actions_never_fired"] = [a for a, n in cov["action_counts"].items() if n[1] == 0]
     pool.shutdown()
